@@ -933,7 +933,8 @@ class Engine:
         if isinstance(n, ast.Call):
             if isinstance(n.func, ast.Name) and self.inline is not None and self.resolve_callee(n, st) is not None:
                 return True
-            return self.param is not None and self.lib_name(n.func) in _BISECT and len(n.args) == 2 and not n.keywords
+            return self.param is not None and self.lib_name(n.func) in _BISECT and not any(isinstance(a, ast.Starred) for a in n.args) \
+                and not any(k.arg is None for k in n.keywords)
         return True
 
     def prefork(self, sites, st):
@@ -1045,14 +1046,14 @@ class Engine:
         """bisect.bisect_right / bisect_left of the float parameter in an ascending literal table: one path per position"""
         key = _memo_key(node)
         st.env.pop(key, None)
-        table, x = self._ev_u(node.args[0], st), self._ev_u(node.args[1], st)
-        if not (isinstance(table, Tup) and table.items and all(is_num(t) for t in table.items)
-                and all(a <= b for a, b in zip(table.items, table.items[1:]))):
+        lib = self.lib_name(node.func)
+        got = _bisect_call(lib, [self._ev_u(a, st) for a in node.args], {k.arg: self._ev_u(k.value, st) for k in node.keywords})
+        if got is None:
             return [st]
-        left = _BISECT[self.lib_name(node.func)]
+        table, x, left, lo, hi = got
         if is_num(x):
             import bisect as _b
-            st.env[key] = Fraction((_b.bisect_left if left else _b.bisect_right)(list(table.items), x))
+            st.env[key] = Fraction((_b.bisect_left if left else _b.bisect_right)(list(table.items), x, lo, hi))
             return [st]
         shape = self._param_shape(x)
         if shape is None:
@@ -1060,6 +1061,8 @@ class Engine:
         out = []
         cur = [st]
         for k, t in enumerate(table.items):
+            if not lo <= k < hi:
+                continue                           # bisect(a, x, lo, hi) looks at a[lo:hi] only: the answer lies in lo..hi
             nxt = []
             for c in cur:
                 for truth, c2 in self.split(shape, ast.LtE() if left else ast.Lt(), t, c):
@@ -1070,7 +1073,7 @@ class Engine:
                         nxt.append(c2)
             cur = nxt
         for c in cur:
-            c.env[key] = Fraction(len(table.items))
+            c.env[key] = Fraction(hi)
             out.append(c)
         return out
 
@@ -1956,9 +1959,12 @@ class Engine:
             return Tup(tuple(x for a in args for x in _as_sequence(a).items))
         if lib in ("math.fabs",) and len(args) == 1 and not kw:
             return self.b_abs(args, st)
-        if lib in _BISECT and len(args) == 2 and not kw and isinstance(args[0], Tup) and all(is_num(t) for t in args[0].items) and is_num(args[1]):
-            import bisect as _b
-            return Fraction((_b.bisect_left if _BISECT[lib] else _b.bisect_right)(list(args[0].items), args[1]))
+        if lib in _BISECT:
+            got = _bisect_call(lib, args, kw)
+            if got is not None and is_num(got[1]):
+                import bisect as _b
+                table, x, left, lo, hi = got
+                return Fraction((_b.bisect_left if left else _b.bisect_right)(list(table.items), x, lo, hi))
         return NotImplemented
 
     def _inline_single(self, name, fn, args, kw, st, node):
@@ -2369,7 +2375,41 @@ def _comp_key(node):
     return "<comp:%d>" % id(node)
 
 
-_BISECT = {"bisect.bisect_right": False, "bisect.bisect": False, "bisect.bisect_left": True}      # name -> counts the elements < x (else <= x)
+_BISECT = {"bisect.bisect_right": False, "bisect.bisect": False, "bisect.bisect_left": True,       # name -> counts the elements < x (else <= x)
+           "numpy.searchsorted": True}                                                            # (numpy: side="left" unless said otherwise)
+
+
+def _bisect_call(lib, args, kw):
+    """a look-up of a number in an ascending table of numbers, placed on the library signature:
+    bisect.bisect[_right|_left](a, x, lo=0, hi=len(a)) / numpy.searchsorted(a, v, side="left") -> (table, x, counts `<`, lo, hi), else None.
+    The answer is lo + the number of elements of a[lo:hi] that are <= x (`<` x for the left variants)."""
+    numpy = lib == "numpy.searchsorted"
+    names = ("a", "v", "side", "sorter") if numpy else ("a", "x", "lo", "hi", "key")
+    if len(args) > len(names) or any(k in names[:len(args)] or k not in names for k in kw):
+        return None
+    b = dict(zip(names, args))
+    b.update(kw)
+    if "a" not in b or names[1] not in b or b.get("key", Const(None)) != Const(None) or b.get("sorter", Const(None)) != Const(None):
+        return None
+    table = _as_sequence(b["a"])
+    if not (isinstance(table, Tup) and all(is_num(t) for t in table.items) and all(p <= q for p, q in zip(table.items, table.items[1:]))):
+        return None
+    n = len(table.items)
+    left = _BISECT[lib]
+    lo, hi = 0, n
+    if numpy:
+        side = b.get("side", Lit("left"))
+        if side not in (Lit("left"), Lit("right")):
+            return None
+        left = side == Lit("left")
+    else:
+        if "lo" in b:
+            lo = as_int(b["lo"])
+        if b.get("hi", Const(None)) != Const(None):
+            hi = as_int(b["hi"])
+        if lo is None or hi is None or not 0 <= lo <= hi <= n:
+            return None                            # a negative lo raises, a hi beyond the table reads past it: not modelled
+    return table, b[names[1]], left, lo, hi
 
 
 def _is_bool(v):
